@@ -340,6 +340,13 @@ class Interp:
         if cs_ in ('std::optional::has_value', 'std::optional::operator bool') and 'obj' in n:
             v = self.eval(fn, S[n['obj']], env)
             return v is not None
+        if cs_ == 'std::optional::reset' and 'obj' in n:
+            self.assign(fn, S[n['obj']], None, env)
+            return None
+        if cs_ == 'std::optional::emplace' and 'obj' in n and len(n.get('args', [])) == 1:
+            v = self.eval(fn, S[n['args'][0]], env)
+            self.assign(fn, S[n['obj']], v, env)
+            return v
         if cs_ == 'std::optional::value' and 'obj' in n:
             return self.eval(fn, S[n['obj']], env)
         if n['k'] == 'CXXOperatorCallExpr' and cs_ in ('std::optional::operator->', 'std::optional::operator*') and n.get('args'):
